@@ -52,6 +52,9 @@ theorem slugSuffix_ni (ids : List Str) (slug : Str) : ∀ fuel i, NI (slugSuffix
 @[ni] theorem unterminatedCheck_ni (d : BlockDef) (mt : Match) (r : Reader) : NI (unterminatedCheck d mt r) := by
   unfold unterminatedCheck; ni_go
 
+@[ni] theorem blockExpand_ni (d : BlockDef) : NI (blockExpand d) := by
+  unfold blockExpand; ni_go
+
 @[ni] theorem htmlVerify_ni (mt : Match) : NI (htmlVerify mt) := by unfold htmlVerify; ni_go
 
 theorem mapM_ni {α β} {f : α → M β} (hf : ∀ a, NI (f a)) : ∀ l : List α, NI (l.mapM f) := by
